@@ -45,6 +45,8 @@ where
 {
     // Create data dir
     let data_dir = Arc::new(folder.as_ref());
+    #[cfg(mahf_verif)]
+    crate::verif::io::before_create_dir(data_dir.as_ref())?;
     fs::create_dir_all(data_dir.as_ref())?;
 
     // Write configuration RON file
